@@ -265,6 +265,48 @@ func expandStaging(gz []byte) ([]stagedUpload, error) {
 	return ups, nil
 }
 
+// packStaging re-encodes a staging bundle with the (uncompressed) contents of ups, keeping every tar
+// header (names, SUNLIGHT.opts records) of the original
+func packStaging(orig []byte, ups []stagedUpload) []byte {
+	raw, err := gunzip(orig)
+	if err != nil {
+		panic(err)
+	}
+	var out bytes.Buffer
+	tw := tar.NewWriter(&out)
+	tr := tar.NewReader(bytes.NewReader(raw))
+	for i := 0; ; i++ {
+		h, err := tr.Next()
+		if err == io.EOF {
+			break
+		}
+		if err != nil {
+			panic(err)
+		}
+		var o ctlog.UploadOptions
+		json.Unmarshal([]byte(h.PAXRecords["SUNLIGHT.opts"]), &o)
+		data := ups[i].data
+		if o.Compressed {
+			var b bytes.Buffer
+			zw := gzip.NewWriter(&b)
+			zw.Write(data)
+			zw.Close()
+			data = b.Bytes()
+		}
+		nh := &tar.Header{Name: h.Name, Size: int64(len(data)), PAXRecords: h.PAXRecords}
+		if err := tw.WriteHeader(nh); err != nil {
+			panic(err)
+		}
+		tw.Write(data)
+	}
+	tw.Close()
+	var gz bytes.Buffer
+	zw := gzip.NewWriter(&gz)
+	zw.Write(out.Bytes())
+	zw.Close()
+	return gz.Bytes()
+}
+
 // canonical payload text of an object, as the model renders it (Ctlog/Run.v show_payload)
 func (w *world) payloadText(key string, data []byte, compressed bool) string {
 	switch {
